@@ -157,12 +157,13 @@ CHECKS["C13"] = {
 
 CHECKS["C11"] = {
     "package": "seq", "bin": "c11", "flavor": "seq", "replay": "rerun",
+    "extra_parts": [{"package": "sched", "bin": "c11c", "flavor": "sched", "shards": {"quick": 5, "thorough": 15}}],
     "shards": {"quick": 4, "thorough": 16},
     "level": "exploration",
     "technique": "runtime monitoring: differential (metamorphic) oracle - the same history under the same virtual timestamps with and without a reload of equal rules must give identical traces and identical enforcing objects (Arc identity); a third, state-losing run measures whether the case could have shown a difference; plus model checks for changed parameters",
     "rule": "cases (3 of 4) = one resource with up to one flow setup (1-2 reject rules on global/private windows, or one throttling rule, or one warm-up rule), up to one hotspot rule (QPS reject / QPS throttling / concurrency) and up to one circuit breaker (3 strategies, 1-4 buckets) x a history of 8..90 operations {request with value a/b/c and batch 1-2, exit with/without error, advance 1 ms..6 s} x a reload at a random position through load_rules or load_rules_of_resource, with new ids, reversed order, optionally an extra lax rule on the same resource and an unrelated resource added or changed in the same call; each executed as control / reload / reset on fresh resources. Non-trivial iff the reset (state-losing) run differs from the control; distinct = distinct (flow kind, hotspot kind, breaker strategy, entry point, extra rule?, unrelated-resource variant). Cases (1 of 4) = changed parameter: flow reject threshold, throttling rate or interval only, hotspot concurrency threshold, breaker error-count threshold, via either entry point, keeping or renewing the id",
     "level_text": "Trace equality (decision, block type, virtual time consumed by build(), breaker state after every operation) between the control run and the run with the reload, and pointer identity of controllers/breakers across the reload; for changed parameters the very next entries must follow the new value; exploration.",
-    "level_note": "Per resource at most one rule of each order-sensitive kind is used (two throttling / hotspot / breaker rules on one resource would make the trace depend on HashSet iteration order, which differs between the two runs). Whether statistics survive a CHANGED breaker rule is not asserted.",
+    "level_note": "Per resource at most one rule of each order-sensitive kind is used (two throttling / hotspot / breaker rules on one resource would make the trace depend on HashSet iteration order, which differs between the two runs). Whether statistics survive a CHANGED breaker rule is not asserted. Concurrent half (sched/src/bin/c11c.rs, shuttle): while one thread reloads (load-all with the resource's rules equal and another resource changed / removed, or load-for-resource of another resource) a second thread's requests on a resource whose unchanged rule rejects everything must still be rejected in every sampled schedule and every schedule with <= 1 preemption, and the enforcing object must be the same afterwards.",
     "design_ref": "DESIGN.md §5 C11",
     "assumptions": COMMON_ASSUMPTIONS,
 }
